@@ -26,6 +26,8 @@ enum St {
     NotStarted,
     Waiting,
     Running,
+    /// scheduled, but stuck on a real lock that a descheduled thread holds (never on the unchanged library)
+    Blocked,
     Done,
 }
 
@@ -44,6 +46,13 @@ thread_local! {
     /// set in the threads that are under the control of a scheduler; everybody else
     /// (set-up, solo runs) passes the yield points without stopping
     static ME: RefCell<Option<(usize, Arc<Sched>)>> = RefCell::new(None);
+}
+
+thread_local! {
+    /// set in threads that run without the scheduler next to other threads: there a look at a file
+    /// right after a call has returned is not atomic with the return (another reader may be
+    /// rewriting the file at that moment), so the per-call look is left to the scheduled runs
+    static UNSCHEDULED: std::cell::Cell<bool> = std::cell::Cell::new(false);
 }
 
 fn yield_callback(site: u8) {
@@ -85,15 +94,31 @@ impl Sched {
         let mut enabled_at = Vec::new();
         loop {
             let mut g = self.m.lock().unwrap_or_else(|e| e.into_inner());
+            let mut waited = 0u32;
             loop {
-                let quiet = g.turn.is_none() && g.status.iter().all(|s| matches!(s, St::Waiting | St::Done));
-                if quiet {
+                let quiet = g.turn.is_none() && g.status.iter().all(|s| matches!(s, St::Waiting | St::Done | St::Blocked));
+                let some_enabled = g.status.iter().any(|s| *s == St::Waiting);
+                let some_blocked = g.status.iter().any(|s| *s == St::Blocked);
+                if quiet && (some_enabled || !some_blocked) {
                     break;
                 }
-                let (g2, to) = self.cv.wait_timeout(g, Duration::from_secs(30)).unwrap_or_else(|e| e.into_inner());
+                let (g2, to) = self.cv.wait_timeout(g, Duration::from_millis(1000)).unwrap_or_else(|e| e.into_inner());
                 g = g2;
                 if to.timed_out() {
-                    return Err(format!("scheduler: a thread neither reached a yield point nor finished within 30 s ({:?})", g.status));
+                    waited += 1;
+                    // a thread that was let go and neither reaches a yield point nor finishes is
+                    // waiting for a real lock held by a thread that is parked at a yield point:
+                    // leave it where it is and go on with the others
+                    if g.turn.is_none() {
+                        for st in g.status.iter_mut() {
+                            if *st == St::Running {
+                                *st = St::Blocked;
+                            }
+                        }
+                    }
+                    if waited > 30 {
+                        return Err(format!("scheduler: a thread neither reached a yield point nor finished within 30 s ({:?})", g.status));
+                    }
                 }
             }
             let enabled: Vec<usize> = (0..g.status.len()).filter(|i| g.status[*i] == St::Waiting).collect();
@@ -136,9 +161,9 @@ fn standoff(k: u8) -> bool {
 impl Scen {
     fn from_sx(x: &Sx) -> Scen {
         Scen {
-            mem: x.nth(0).list().iter().map(|v| v.int().clamp(0, 6) as u8).collect(),
+            mem: x.nth(0).list().iter().map(|v| v.int().clamp(0, 7) as u8).collect(),
             chg: x.nth(1).list().iter().map(|v| v.int() != 0).collect(),
-            ops: x.nth(2).list().iter().map(|o| (o.nth(0).int().clamp(0, 12) as u8, o.nth(1).int().max(0) as usize, o.nth(2).int().clamp(0, 9) as u8)).collect(),
+            ops: x.nth(2).list().iter().map(|o| (o.nth(0).int().clamp(0, 13) as u8, o.nth(1).int().max(0) as usize, o.nth(2).int().clamp(0, 9) as u8)).collect(),
             nkeys: if x.nth(4).int() == 2 { x.nth(5).int().clamp(1, 200) as usize } else { 1 },
         }
     }
@@ -163,23 +188,23 @@ impl Scen {
         self.ops.iter().any(|(k, _, _)| *k == 10)
     }
     fn well_formed(&self) -> bool {
-        let mut seen_dataset = false;
-        for k in &self.mem {
-            if is_resource(*k) {
-                if seen_dataset {
-                    return false;
-                }
-            } else {
-                seen_dataset = true;
-            }
+        // sub-stores first, then resources, then datasets
+        let rank = |k: u8| if k == 7 { 0 } else if is_resource(k) { 1 } else { 2 };
+        if self.mem.windows(2).any(|w| rank(w[0]) > rank(w[1])) {
+            return false;
+        }
+        let nsub = self.mem.iter().filter(|k| **k == 7).count();
+        // a sub-store is not a member that can be serialised on its own; sub-stores need a JSON store
+        if self.ops.iter().any(|(k, i, _)| matches!(*k, 2 | 3 | 4 | 5 | 8 | 9 | 11 | 12) && *i < self.mem.len() && self.mem[*i] == 7) || (nsub > 0 && self.cbor()) {
+            return false;
         }
         self.chg.len() == self.mem.len()
             && self.mem.len() <= 6
             && !self.ops.is_empty()
             && self.ops.len() <= 4
-            && self.ops.iter().all(|(k, i, _)| *k <= 1 || *k == 6 || *k == 7 || *k == 10 || *i < self.mem.len())
+            && self.ops.iter().all(|(k, i, _)| *k <= 1 || *k == 6 || *k == 7 || *k == 10 || *k == 13 || *i < self.mem.len())
             // a CBOR-format store (a reader saves it): only calls that do not need the store's Config to be JSON
-            && (!self.cbor() || self.ops.iter().all(|(k, _, _)| matches!(*k, 0 | 3 | 6 | 8 | 9 | 10 | 11)))
+            && (!self.cbor() || self.ops.iter().all(|(k, _, _)| matches!(*k, 0 | 3 | 6 | 8 | 9 | 10 | 11 | 13)))
             && (0..self.mem.len()).all(|i| !self.chg[i] || standoff(self.mem[i]))
     }
 }
@@ -214,6 +239,8 @@ fn member_id(i: usize) -> String {
 fn member_file(i: usize, k: u8) -> String {
     if k == 1 {
         format!("m{}.txt", i)
+    } else if k == 7 {
+        format!("m{}.store.stam.json", i)
     } else if k == 5 {
         format!("sub{}/m{}.json", i, i)
     } else if k == 6 {
@@ -301,6 +328,9 @@ impl Ctx {
         let mut first_set = None;
         for (i, k) in sc.mem.iter().enumerate() {
             let id = member_id(i);
+            if *k == 7 {
+                continue;
+            }
             match *k {
                 0 => {
                     store.add_resource(TextResourceBuilder::new().with_id(id).with_text(format!("Hello inline text {}", i))).map_err(e)?;
@@ -351,6 +381,18 @@ impl Ctx {
                         .with_existing_data(member_id(d), format!("D{}", d)),
                 )
                 .map_err(e)?;
+        }
+        // sub-stores (written as @include by the store serialisation, which also writes their files);
+        // the second annotation goes to the first one
+        let mut first_sub = true;
+        for (i, k) in sc.mem.iter().enumerate() {
+            if *k == 7 {
+                store.add_new_substore(member_id(i), member_file(i, 7).as_str()).map_err(e)?;
+                if first_sub && first_res.is_some() && first_set.is_some() {
+                    <AnnotationStore as AssociateSubStore<Annotation>>::associate_substore(&mut store, "a1", member_id(i).as_str()).map_err(e)?;
+                }
+                first_sub = false;
+            }
         }
         // Members loaded from a stand-off .json file come out of the loader marked as changed.
         // Where the scenario wants the flag cleared, one (single-threaded) serialisation of the
@@ -411,6 +453,12 @@ impl Ctx {
             .iter()
             .enumerate()
             .map(|(i, k)| {
+                if *k == 7 {
+                    if !results.iter().any(|g| g.tokens.contains(&(2 * i as i64 + 1))) {
+                        return 0;
+                    }
+                    return if substore_file_ok(&self.dir, i) { 0 } else { 1 };
+                }
                 if !standoff(*k) || *k == 5 || *k == 6 {
                     return 0;
                 }
@@ -495,6 +543,7 @@ impl Ctx {
                 let bar = &barrier;
                 let op = *op;
                 handles.push(scope.spawn(move || {
+                    UNSCHEDULED.with(|u| u.set(true));
                     bar.wait();
                     guard(|| run_op(store_ref, sc, op)).unwrap_or(Got { tokens: vec![-1], text: String::new() })
                 }));
@@ -518,6 +567,7 @@ impl Ctx {
         let deviating: Mutex<Vec<Option<Got>>> = Mutex::new(vec![None; sc.ops.len()]);
         let ncalls = std::sync::atomic::AtomicU64::new(0);
         let one_call = |i: usize| {
+            UNSCHEDULED.with(|u| u.set(true));
             let got = guard(|| run_op(&store, sc, sc.ops[i])).unwrap_or(Got { tokens: vec![-1], text: String::new() });
             ncalls.fetch_add(1, Ordering::Relaxed);
             if got != solos[i] {
@@ -804,19 +854,48 @@ fn digest_annotations(store: &AnnotationStore) -> String {
     s
 }
 
-fn store_op(store: &AnnotationStore) -> Got {
+fn substore_file_ok(dir: &std::path::Path, i: usize) -> bool {
+    match std::fs::read_to_string(dir.join(member_file(i, 7))) {
+        Ok(content) => match serde_json::from_str::<serde_json::Value>(&content) {
+            Ok(v) => v.get("@type").and_then(|t| t.as_str()) == Some("AnnotationStore") && v.get("annotations").map(|x| x.is_array()).unwrap_or(false),
+            Err(_) => false,
+        },
+        Err(_) => false,
+    }
+}
+
+fn store_op(store: &AnnotationStore, sc: &Scen) -> Got {
     match store.to_json_string(store.config()) {
-        Ok(text) => store_tokens(text),
+        Ok(text) => store_tokens(text, store, sc),
         Err(e) => Got { tokens: vec![-2], text: format!("{:?}", e) },
     }
 }
 
-fn store_tokens(text: String) -> Got {
+/// the member forms in a store document that a call has just returned (Ok); the sub-stores it
+/// refers to must have their files by now: -8 otherwise
+fn store_tokens(text: String, store: &AnnotationStore, sc: &Scen) -> Got {
     match Ok::<String, StamError>(text) {
         Ok(text) => match serde_json::from_str::<serde_json::Value>(&text) {
             Ok(v) => {
                 let mut tokens = Vec::new();
                 let mut idx = 0usize;
+                let includes: Vec<String> = match v.get("@include") {
+                    Some(serde_json::Value::String(x)) => vec![x.clone()],
+                    Some(serde_json::Value::Array(a)) => a.iter().filter_map(|x| x.as_str().map(|y| y.to_string())).collect(),
+                    _ => vec![],
+                };
+                let mut late = false;
+                for _ in &includes {
+                    tokens.push(2 * idx as i64 + 1);
+                    if idx < sc.mem.len() && sc.mem[idx] == 7 && !UNSCHEDULED.with(|u| u.get()) {
+                        if let Some(w) = store.config().workdir() {
+                            if !substore_file_ok(w, idx) {
+                                late = true;
+                            }
+                        }
+                    }
+                    idx += 1;
+                }
                 for field in ["resources", "annotationsets"] {
                     if let Some(arr) = v.get(field).and_then(|x| x.as_array()) {
                         for m in arr {
@@ -824,6 +903,9 @@ fn store_tokens(text: String) -> Got {
                             idx += 1;
                         }
                     }
+                }
+                if late {
+                    tokens.push(-8);
                 }
                 Got { tokens, text }
             }
@@ -908,7 +990,12 @@ fn run_op(store: &AnnotationStore, sc: &Scen, op: (u8, usize, u8)) -> Got {
             };
             Got { tokens: vec![], text }
         }
-        1 => store_op(store),
+        1 => store_op(store, sc),
+        13 => {
+            // the public read of the store's own changed flag
+            let c = store.changed();
+            Got { tokens: vec![], text: format!("{}", c) }
+        }
         10 => match store.save() {
             Ok(()) => Got { tokens: vec![], text: String::new() },
             Err(e) => Got { tokens: vec![-2], text: format!("{:?}", e) },
@@ -938,7 +1025,7 @@ fn run_op(store: &AnnotationStore, sc: &Scen, op: (u8, usize, u8)) -> Got {
             if kind == 11 {
                 return first;
             }
-            let second = store_op(store);
+            let second = store_op(store, sc);
             let mut tokens = first.tokens.clone();
             tokens.push(-7);
             tokens.extend(second.tokens.iter());
@@ -986,7 +1073,7 @@ fn run_op(store: &AnnotationStore, sc: &Scen, op: (u8, usize, u8)) -> Got {
             let r = store.to_json_file(&name, &export_config);
             let got = match r {
                 Ok(()) => match std::fs::read_to_string(&path) {
-                    Ok(text) => store_tokens(text),
+                    Ok(text) => store_tokens(text, store, sc),
                     Err(e) => Got { tokens: vec![-2], text: format!("{:?}", e) },
                 },
                 Err(e) => Got { tokens: vec![-2], text: format!("{:?}", e) },
@@ -996,8 +1083,8 @@ fn run_op(store: &AnnotationStore, sc: &Scen, op: (u8, usize, u8)) -> Got {
         }
         5 | 7 => {
             // two calls one after the other on this thread
-            let first = if kind == 5 { run_op(store, sc, (2, i, variant)) } else { store_op(store) };
-            let second = store_op(store);
+            let first = if kind == 5 { run_op(store, sc, (2, i, variant)) } else { store_op(store, sc) };
+            let second = store_op(store, sc);
             let mut tokens = first.tokens.clone();
             tokens.push(-7);
             tokens.extend(second.tokens.iter());
@@ -1398,6 +1485,37 @@ pub fn generate(out: &mut Out, tier: &str, seed: u64) {
         }
     }
 
+    // I. stores with sub-stores: the store serialisation writes "@include" and the sub-store files;
+    //    when a call has returned Ok, the sub-store files it refers to are there (checked per call)
+    for (mem, chg) in [(vec![7u8], vec![false]), (vec![7, 0, 3], vec![false, false, false]), (vec![7, 1, 4], vec![false, true, true]), (vec![7, 7, 4], vec![false, false, false])] {
+        let pool: Vec<(u8, usize, u8)> = vec![(1, 0, 0), (7, 0, 0), (6, 0, 0), (13, 0, 0), (3, mem.len() - 1, 0), (0, 0, 0)];
+        for x in 0..3 {
+            for y in x..pool.len() {
+                if pool[y].0 == 3 && mem[pool[y].1] == 7 {
+                    continue;
+                }
+                let sc = Scen { mem: mem.clone(), chg: chg.clone(), ops: vec![pool[x], pool[y]], nkeys: 1 };
+                out.count_n("scenarios_substores", 1);
+                let e = explore(&ctx, out, &sc, if thorough { 1_500 } else { 80 }, "two_threads_all_schedules");
+                if !e.complete {
+                    sample(&ctx, out, &sc, &mut rng, if thorough { 100 } else { 15 }, "two_threads_random_schedule");
+                }
+            }
+        }
+        for ops in [vec![(1u8, 0usize, 0u8), (1, 0, 0), (13, 0, 0)], vec![(1, 0, 0), (6, 0, 0), (7, 0, 0)]] {
+            let sc = Scen { mem: mem.clone(), chg: chg.clone(), ops, nkeys: 1 };
+            sample(&ctx, out, &sc, &mut rng, if thorough { 150 } else { 25 }, "three_threads_random_schedule");
+            out.count_n("scenarios_substores", 1);
+            // and without the scheduler
+            for _ in 0..(if thorough { 60 } else { 15 }) {
+                let req = sc.to_sx_free();
+                let (i, o, nt) = ctx.exec(&req);
+                out.case(&i, &o, nt, &req);
+                out.count("free_run");
+            }
+        }
+    }
+
     // F. readers whose serialisations run as jobs on ONE shared rayon pool: a worker that waits
     //    inside one call may run another reader's whole call in the meantime (work stealing), so
     //    nothing that belongs to one logical call may live in the worker thread across such a wait
@@ -1445,6 +1563,6 @@ pub fn generate(out: &mut Out, tier: &str, seed: u64) {
     }
 }
 
-pub const RULE: &str = "Deterministic scheduler over real threads holding &AnnotationStore (blocked at the stam_verif yield points before every access to the serialisation mode and the changed flags; one thread runs at a time); every execution rebuilds the store and its stand-off files under .cache/work/c20/. A (exhaustive, both tiers): for every store with one member (inline / plain-text stand-off / .json stand-off resource, inline / stand-off dataset; changed flag clear and set: 8 stores) every unordered pair of calls out of {store.to_json_string, ToJson::to_json_string(member, store config), inherent member.to_json_string(), ToJson::to_json_string(member, unrelated Config), pure readers: annotation iteration, find_text + reverse lookups, query, .parallel() through rayon}: ALL schedules, enumerated depth-first by re-execution (the generator fails if a pair exceeds the cap). A3: two calls on one thread (ToJson::to_json_string(member) followed by store.to_json_string), and store.to_json_file into a file of the thread's own (read back), each next to every other call on the one-member stores: all schedules up to 100 (thorough 1500), 25 (100) random ones beyond. A4: stores with a stand-off dataset whose file cannot be written (5 stores), pairs out of {store.to_json_string, store.to_json_string twice on one thread, the member calls, a pure reader}: all schedules up to 80 (thorough 1500), 20 (100) random beyond; every call that has to rewrite the file must return Err every time. A2: stores with one resource and one dataset (5 kind combinations x all flag combinations): all schedules up to 800 (thorough 4000), 100 random ones beyond, for pairs of {store serialisation, ToJson(dataset)}; 10 (thorough 100) random schedules for the other pairs. B: three threads on one-member stores: 20 random schedules per triple (quick), all schedules up to 1000 + 300 random beyond (thorough). C: random stores of up to 2+2 members with 2-3 random calls under random schedules. D: free runs - 2-4 threads started together WITHOUT the scheduler (real pre-emption) on stores of 1-5 members. E: the parallel adaptors: stores with 1030 and 4000 (thorough: 1030, 5000, 12000) annotations, rayon pools of 2..8 workers, two reader threads at once, 5 (12) repetitions each, three iterator chains (all annotations; data-filtered via the key; annotations().filter_key_value): len, collect, enumerate/zip fold, find_first, filter+collect of chain.parallel() against the sequential iterator, order included. G: the changed flag as shared state: stores with a pending plain-text / .json stand-off resource (its content NOT on disk), an unwritable plain-text stand-off resource (kind 6), with datasets: resource.to_txt_file(<another directory>/<same name>) (export), resource.to_txt_file(<own stand-off file>), store serialisation (once, twice), member serialisations in pairs (all schedules up to 60, thorough 1500) and triples (random schedules): a call that returned Ok with a member as @include must have left the member's content in its stand-off file, a failing stand-off write fails for every reader. H: refused calls (ToJson::to_json_string(member, Config with CBOR/CSV dataformat): Err) alone and followed by store.to_json_string on the same thread, next to serialisations (pairs, all schedules up to 50 / 1500), also as jobs on a shared pool of 1-3 workers; CBOR-format stores with pending stand-off members: store.save() next to inherent member serialisations, the JSON export store.to_json_file, exports (pairs and triples): results as alone, every Ok @include has its file. F: 2-4 readers whose calls (ToJson::to_json_string(dataset), store.to_json_string, inherent resource/dataset to_json_string) run as jobs on ONE shared rayon pool of 2-6 workers (install() from ordinary threads, or all spawned into one pool scope) over stores with a stand-off resource and stand-off datasets of 2, 3, 8, 24, 100 keys, 400 (thorough 1500) rounds per reader, every returned string compared with the solo string. Per thread: the member forms in the string it obtained and equality of the whole string with the string the same call returns alone on an identical store, compared with the specified solo result and with the model's prediction for the executed schedule; per run: whether every stand-off file still holds its member's content. Non-trivial: a stand-off member exists and at least two threads were scheduled twice or more. distinct = distinct (scenario, schedule) lines.";
+pub const RULE: &str = "Deterministic scheduler over real threads holding &AnnotationStore (blocked at the stam_verif yield points before every access to the serialisation mode and the changed flags; one thread runs at a time); every execution rebuilds the store and its stand-off files under .cache/work/c20/. A (exhaustive, both tiers): for every store with one member (inline / plain-text stand-off / .json stand-off resource, inline / stand-off dataset; changed flag clear and set: 8 stores) every unordered pair of calls out of {store.to_json_string, ToJson::to_json_string(member, store config), inherent member.to_json_string(), ToJson::to_json_string(member, unrelated Config), pure readers: annotation iteration, find_text + reverse lookups, query, .parallel() through rayon}: ALL schedules, enumerated depth-first by re-execution (the generator fails if a pair exceeds the cap). A3: two calls on one thread (ToJson::to_json_string(member) followed by store.to_json_string), and store.to_json_file into a file of the thread's own (read back), each next to every other call on the one-member stores: all schedules up to 100 (thorough 1500), 25 (100) random ones beyond. A4: stores with a stand-off dataset whose file cannot be written (5 stores), pairs out of {store.to_json_string, store.to_json_string twice on one thread, the member calls, a pure reader}: all schedules up to 80 (thorough 1500), 20 (100) random beyond; every call that has to rewrite the file must return Err every time. A2: stores with one resource and one dataset (5 kind combinations x all flag combinations): all schedules up to 800 (thorough 4000), 100 random ones beyond, for pairs of {store serialisation, ToJson(dataset)}; 10 (thorough 100) random schedules for the other pairs. B: three threads on one-member stores: 20 random schedules per triple (quick), all schedules up to 1000 + 300 random beyond (thorough). C: random stores of up to 2+2 members with 2-3 random calls under random schedules. D: free runs - 2-4 threads started together WITHOUT the scheduler (real pre-emption) on stores of 1-5 members. E: the parallel adaptors: stores with 1030 and 4000 (thorough: 1030, 5000, 12000) annotations, rayon pools of 2..8 workers, two reader threads at once, 5 (12) repetitions each, three iterator chains (all annotations; data-filtered via the key; annotations().filter_key_value): len, collect, enumerate/zip fold, find_first, filter+collect of chain.parallel() against the sequential iterator, order included. G: the changed flag as shared state: stores with a pending plain-text / .json stand-off resource (its content NOT on disk), an unwritable plain-text stand-off resource (kind 6), with datasets: resource.to_txt_file(<another directory>/<same name>) (export), resource.to_txt_file(<own stand-off file>), store serialisation (once, twice), member serialisations in pairs (all schedules up to 60, thorough 1500) and triples (random schedules): a call that returned Ok with a member as @include must have left the member's content in its stand-off file, a failing stand-off write fails for every reader. H: refused calls (ToJson::to_json_string(member, Config with CBOR/CSV dataformat): Err) alone and followed by store.to_json_string on the same thread, next to serialisations (pairs, all schedules up to 50 / 1500), also as jobs on a shared pool of 1-3 workers; CBOR-format stores with pending stand-off members: store.save() next to inherent member serialisations, the JSON export store.to_json_file, exports (pairs and triples): results as alone, every Ok @include has its file. I: stores with one or two sub-stores (alone, with inline members, with pending stand-off members): pairs out of {store.to_json_string once / twice, store.to_json_file, store.changed(), a member serialisation, a pure reader} (all schedules up to 80 / 1500; the hooks have a yield site where a sub-store file is about to be written), triples under random schedules and without the scheduler: every call that returns Ok with a sub-store as @include must find that sub-store's file written at that moment. F: 2-4 readers whose calls (ToJson::to_json_string(dataset), store.to_json_string, inherent resource/dataset to_json_string) run as jobs on ONE shared rayon pool of 2-6 workers (install() from ordinary threads, or all spawned into one pool scope) over stores with a stand-off resource and stand-off datasets of 2, 3, 8, 24, 100 keys, 400 (thorough 1500) rounds per reader, every returned string compared with the solo string. Per thread: the member forms in the string it obtained and equality of the whole string with the string the same call returns alone on an identical store, compared with the specified solo result and with the model's prediction for the executed schedule; per run: whether every stand-off file still holds its member's content. Non-trivial: a stand-off member exists and at least two threads were scheduled twice or more. distinct = distinct (scenario, schedule) lines.";
 
 pub const EXHAUSTIVE: bool = true;
